@@ -562,18 +562,22 @@ def canon_rust(s):
     return s
 
 
-def canon_model(s):
+def canon_model(s, strict=False):
     if s.startswith("ERR "):
         c = s[4:]
-        if c in ("Budget", "InfiniteRec"):
+        if c == "Budget" or (c == "InfiniteRec" and not strict):
             return "ERR Diverge"
         return "ERR " + c
     return s
 
 
-def rust_for_model(s):
+def rust_for_model(s, strict=False):
     """Rust outcome in the model's vocabulary (blame polarity dropped, unbound identifiers are
-    reported by the typechecker walk)."""
+    reported by the typechecker walk).  strict: a detected black hole (InfiniteRec) is kept apart
+    from an exhausted budget -- used for the call-by-need model, which has the same black-holing."""
+    raw = s[4:].split(" ")[0] if s.startswith("ERR ") else ""
+    if strict and raw == "InfiniteRec":
+        return "ERR InfiniteRec"
     s = canon_rust(s)
     if s in ("ERR Blame+", "ERR Blame-"):
         return "ERR Blame"
@@ -772,7 +776,8 @@ def run_programs(ck, progs, scratch, label):
             e["paths"].append((path, h1, h2, h3, t2, mh))
         plan.append(e)
 
-    rc1, rout, e1 = core.run_sharded(core.harness_bin("nkeval"), [], b.rust, timeout=3000)
+    nkeval = os.environ.get("VERIF_C09_NKEVAL") or core.harness_bin("nkeval")   # override: experiments only
+    rc1, rout, e1 = core.run_sharded(nkeval, [], b.rust, timeout=3000)
     rc2, mout, e2 = core.run_sharded(ck.model_exe, [], b.model, timeout=3000) if b.model else (0, [], "")
     if rc1 or rc2:
         ck.obligation("correspondence-run:" + label, "internal", False, "rc=%s/%s %s %s" % (rc1, rc2, e1[-800:], e2[-800:]))
@@ -793,9 +798,9 @@ def run_programs(ck, progs, scratch, label):
         # -- model vs implementation
         model_disagrees = False
         if e["model"]:
-            want = rust_for_model(rout[e["orig"]])
             for what, h in zip(("name", "need"), e["model"]):
-                got = canon_model(mout[h])
+                want = rust_for_model(rout[e["orig"]], strict=(what == "need"))
+                got = canon_model(mout[h], strict=(what == "need"))
                 ck.count("model_cases")
                 if got == "UNSUPPORTED" or got.startswith("BADCASE"):
                     ck.obligation("correspondence:model-input", "internal", False, "%s on %s" % (got, b.model[h]))
@@ -858,7 +863,8 @@ def run_programs(ck, progs, scratch, label):
                                       rewritten_tree=t2, rewritten_files_tree=files, both_with_field=True))
             if mh:
                 for what, hm, hr in (("name", mh[0], h1), ("need", mh[1], h1), ("name", mh[2], h2), ("need", mh[3], h2)):
-                    got, wantm = canon_model(mout[hm]), rust_for_model(rout[hr])
+                    got = canon_model(mout[hm], strict=(what == "need"))
+                    wantm = rust_for_model(rout[hr], strict=(what == "need"))
                     ck.count("model_cases")
                     if got != wantm and got != "ERR Diverge":
                         model_disagrees = True
